@@ -133,16 +133,14 @@ func c09Word(cfg muxCfg, word string) []wunit {
 				evs = append(evs, ev{ms, u})
 			}
 		} else {
-			samples := int64(1024)
-			if t.Kind == "opus" {
-				samples = 960
-			}
 			n := 2
 			if cfg.Variant == "mpegts" {
 				n = 1
+			} else if t.Kind == "opus" && cfg.OpusMix {
+				n = 3
 			}
-			for a := int64(0); a*samples*1000/clock < int64(totalMS); a += int64(n) {
-				evs = append(evs, ev{a * samples * 1000 / clock, wunit{Track: ti, DTS: a * samples, NAU: n}})
+			for dts := int64(0); dts*1000/clock < int64(totalMS); dts += cfg.audioSpan(t, n) {
+				evs = append(evs, ev{dts * 1000 / clock, wunit{Track: ti, DTS: dts, NAU: n}})
 			}
 		}
 	}
@@ -196,12 +194,8 @@ func c09Harness(sc c09Scen) vsched.Harness {
 					if sc.Cfg.Tracks[u.Track].video() {
 						st.written[u.Track] = append(st.written[u.Track], c09Written{u: u, dts: u.DTS, data: data})
 					} else {
-						step := int64(1024)
-						if sc.Cfg.Tracks[u.Track].Kind == "opus" {
-							step = 960
-						}
 						for k := range data {
-							st.written[u.Track] = append(st.written[u.Track], c09Written{u: u, k: k, dts: u.DTS + int64(k)*step, data: [][]byte{data[k]}})
+							st.written[u.Track] = append(st.written[u.Track], c09Written{u: u, k: k, dts: u.DTS + sc.Cfg.audioSpan(sc.Cfg.Tracks[u.Track], k), data: [][]byte{data[k]}})
 						}
 					}
 				}
@@ -549,7 +543,7 @@ func c09Scens(tier string) []c09Scen {
 		mcfg("fmp4", false, 3, "av1"),
 		mcfg("fmp4", false, 3, "vp9", "aac48"),
 		mcfg("fmp4", false, 3, "aac44", "aac48"),
-		{Variant: "fmp4", Tracks: []trackSpec{{Kind: "aac48", Name: "English", Lang: "en"}, {Kind: "h264"}, {Kind: "opus", Name: "Deutsch", Lang: "de", Default: true}}, SegCount: 3, SegMinMS: 1000},
+		{Variant: "fmp4", Tracks: []trackSpec{{Kind: "aac48", Name: "English", Lang: "en"}, {Kind: "h264"}, {Kind: "opus", Name: "Deutsch", Lang: "de", Default: true}}, SegCount: 3, SegMinMS: 1000, OpusMix: true},
 		mcfg("ll", false, 7, "h264", "aac44"),
 		mcfg("ll", false, 7, "h264"),
 		mcfg("ll", false, 7, "aac48"),
